@@ -125,26 +125,50 @@ func ruleRender(r *Run) {
 	oc := r.Ob("PV-WHOLE", "main.colors table", "every palette name has an escape code: the colour table is filled by ranging over all names")
 	{
 		names := namesLiteral(p)
+		// the function whose result initialises the colors global, and which of its
+		// slice-typed values denote the whole names table
 		var initFn *ssa.Function
+		whole := map[ssa.Value]bool{}
+		isNames := func(v ssa.Value) bool {
+			u, ok := v.(*ssa.UnOp)
+			if !ok {
+				return false
+			}
+			g, ok := u.X.(*ssa.Global)
+			return ok && g.Name() == "names"
+		}
 		if sp := p.SSAPkg(cmdPkg); sp != nil {
-			for _, mem := range sp.Members {
-				if f, ok := mem.(*ssa.Function); ok && f.Name() == "init" {
-					for _, a := range f.AnonFuncs {
-						initFn = a
+			if f := sp.Func("init"); f != nil {
+				allInstrs(f, func(in ssa.Instruction) {
+					st, ok := in.(*ssa.Store)
+					if !ok {
+						return
 					}
-					// closures invoked from init may be named init$1
-				}
+					g, ok := st.Addr.(*ssa.Global)
+					if !ok || g.Name() != "colors" {
+						return
+					}
+					c, ok := st.Val.(*ssa.Call)
+					if !ok {
+						return
+					}
+					callee := c.Common().StaticCallee()
+					if callee == nil || callee.Blocks == nil {
+						return
+					}
+					initFn = callee
+					for i, a := range c.Call.Args {
+						if i < len(callee.Params) && isNames(a) {
+							whole[callee.Params[i]] = true
+						}
+					}
+				})
 			}
 		}
 		good := false
 		if initFn != nil {
 			for _, l := range rangeIndexLoops(initFn) {
-				u, ok := l.X.(*ssa.UnOp)
-				if !ok {
-					continue
-				}
-				g, ok := u.X.(*ssa.Global)
-				if !ok || g.Name() != "names" || len(l.earlyExits()) > 0 {
+				if !(isNames(l.X) || whole[l.X]) || len(l.earlyExits()) > 0 {
 					continue
 				}
 				for b := range l.Blocks {
@@ -271,6 +295,21 @@ func ruleRender(r *Run) {
 	}
 
 	// ---- one Write per entry
+	// the function that builds the written line: renderResult itself, or a helper whose
+	// result is what is written (its options / buffer parameters are bound at the call)
+	builder, bOpts := fn, ssa.Value(opts)
+	var builderCall *ssa.Call
+	if writeCall != nil {
+		if hc, ok := writeCall.Call.Args[0].(*ssa.Call); ok {
+			if h := hc.Common().StaticCallee(); h != nil && h.Blocks != nil && h.Pkg == fn.Pkg {
+				for i, a := range hc.Call.Args {
+					if i < len(h.Params) && (a == ssa.Value(opts) || unspill(a) == ssa.Value(opts)) {
+						builder, bOpts, builderCall = h, h.Params[i], hc
+					}
+				}
+			}
+		}
+	}
 	o1 := r.Ob("PV-ONCE", "main.renderResult write", "each entry produces exactly one Write of one line: buffer reset at the top of the iteration, message with trailing CR/LF trimmed, then a single \\n; a write error is returned")
 	if write == nil || writeCall == nil {
 		o1.Fail(r.pos(fn.Pos()), "no write loop")
@@ -302,21 +341,36 @@ func ruleRender(r *Run) {
 				o1.Fail(r.pos(termPos(ex[0])), "the write loop is left early on a non-error path")
 			}
 		}
-		// written buffer: append(append(X, TrimRight(entry.V, "\r\n")...), "\n"...)
+		// written buffer: append(append(X, TrimRight(entry.V, "\r\n")...), "\n"...), built in the
+		// loop or by a line-builder helper called once per entry
 		bufv := writeCall.Call.Args[0]
-		a2, ok := bufv.(*ssa.Call)
-		shape := false
-		if ok {
-			if nl, ok := constStr(a2.Call.Args[1]); ok && nl == "\n" {
-				if a1, ok := a2.Call.Args[0].(*ssa.Call); ok {
-					if tr, ok := a1.Call.Args[1].(*ssa.Call); ok && callIs(tr, "strings", "TrimRight") {
-						cut, okc := constStr(tr.Call.Args[1])
-						f, _, okf := loadOfField(tr.Call.Args[0])
-						if okc && strings.Contains(cut, "\r") && strings.Contains(cut, "\n") && len(cut) == 2 && okf && f == "V" {
-							shape = true
+		outs := []ssa.Value{bufv}
+		if builder != fn {
+			outs = nil
+			for _, ret := range returnsOf(builder) {
+				if len(ret.Results) == 1 {
+					outs = append(outs, phiLeaves(ret.Results[0])...)
+				}
+			}
+		}
+		shape := len(outs) > 0
+		for _, out := range outs {
+			one := false
+			if a2, ok := out.(*ssa.Call); ok && isAppend(a2) {
+				if nl, ok := constStr(a2.Call.Args[1]); ok && nl == "\n" {
+					if a1, ok := a2.Call.Args[0].(*ssa.Call); ok && isAppend(a1) {
+						if tr, ok := a1.Call.Args[1].(*ssa.Call); ok && callIs(tr, "strings", "TrimRight") {
+							cut, okc := constStr(tr.Call.Args[1])
+							f, _, okf := loadOfField(tr.Call.Args[0])
+							if okc && strings.Contains(cut, "\r") && strings.Contains(cut, "\n") && len(cut) == 2 && okf && f == "V" {
+								one = true
+							}
 						}
 					}
 				}
+			}
+			if !one {
+				shape = false
 			}
 		}
 		if !shape {
@@ -328,7 +382,9 @@ func ruleRender(r *Run) {
 		for _, in := range write.Body.Instrs {
 			if sl, ok := in.(*ssa.Slice); ok && sl.High != nil {
 				if z, ok := constInt(sl.High); ok && z == 0 {
-					resetOK = true
+					if builder == fn || (builderCall != nil && argIndex(builderCall, sl) >= 0) {
+						resetOK = true
+					}
 				}
 			}
 		}
@@ -356,72 +412,91 @@ func ruleRender(r *Run) {
 	og := r.Ob("GUARD", "main.renderResult options", "escape sequences are appended only when colour is on; the container name only with the container option; the timestamp only with the timestamp option, formatted as RFC3339Nano from time.Unix(0, T)")
 	{
 		bad := false
-		allInstrs(fn, func(in ssa.Instruction) {
-			u, ok := in.(*ssa.UnOp)
-			if !ok || u.Op != token.MUL {
-				return
-			}
-			g, ok := u.X.(*ssa.Global)
-			if !ok || (g.Name() != "colors" && g.Name() != "resetColor") {
-				return
-			}
-			if !underOpt(u.Block(), opts, "color") {
-				bad = true
-				og.Fail(r.pos(u.Pos()), "%s is used on a path where the colour option is not known to be on", g.Name())
-			}
-		})
-		// containerColors map lookups for output
-		allInstrs(fn, func(in ssa.Instruction) {
-			lk, ok := in.(*ssa.Lookup)
-			if !ok || lk.CommaOk {
-				return
-			}
-			if mt, ok := lk.X.Type().Underlying().(*types.Map); ok && isStringType(mt.Elem()) && isStringType(mt.Key()) {
-				if _, isG := addrRoot(lk.X).(*ssa.Global); isG {
+		type guardScope struct {
+			f *ssa.Function
+			o ssa.Value
+		}
+		scopes := []guardScope{{fn, opts}}
+		if builder != fn {
+			scopes = append(scopes, guardScope{builder, bOpts})
+		}
+		for _, sc := range scopes {
+			opts := sc.o
+			allInstrs(sc.f, func(in ssa.Instruction) {
+				u, ok := in.(*ssa.UnOp)
+				if !ok || u.Op != token.MUL {
 					return
 				}
-				if strings.Contains(describe(lk.X, 0), "labels") || strings.Contains(describe(lk.X, 0), "Value") {
-					return // stream labels
+				g, ok := u.X.(*ssa.Global)
+				if !ok || (g.Name() != "colors" && g.Name() != "resetColor") {
+					return
 				}
-				if !underOpt(lk.Block(), opts, "color") {
+				if !underOpt(u.Block(), opts, "color") {
 					bad = true
-					og.Fail(r.pos(lk.Pos()), "a container colour is looked up with colour off")
+					og.Fail(r.pos(u.Pos()), "%s is used on a path where the colour option is not known to be on", g.Name())
 				}
+			})
+			// containerColors map lookups for output
+			allInstrs(sc.f, func(in ssa.Instruction) {
+				lk, ok := in.(*ssa.Lookup)
+				if !ok || lk.CommaOk {
+					return
+				}
+				if mt, ok := lk.X.Type().Underlying().(*types.Map); ok && isStringType(mt.Elem()) && isStringType(mt.Key()) {
+					if _, isG := addrRoot(lk.X).(*ssa.Global); isG {
+						return
+					}
+					if strings.Contains(describe(lk.X, 0), "labels") || strings.Contains(describe(lk.X, 0), "Value") {
+						return // stream labels
+					}
+					if !underOpt(lk.Block(), opts, "color") {
+						bad = true
+						og.Fail(r.pos(lk.Pos()), "a container colour is looked up with colour off")
+					}
+				}
+			})
+			var lineBlocks []*ssa.BasicBlock
+			if sc.f == fn && write != nil {
+				for b := range write.Blocks {
+					lineBlocks = append(lineBlocks, b)
+				}
+			} else if sc.f != fn {
+				lineBlocks = sc.f.Blocks
 			}
-		})
-		if write != nil {
-			// container name appended under opts.container; timestamp under opts.timestamp
-			for b := range write.Blocks {
-				for _, in := range b.Instrs {
-					c, ok := in.(*ssa.Call)
-					if !ok {
-						continue
-					}
-					if bi, ok := c.Call.Value.(*ssa.Builtin); ok && bi.Name() == "append" && len(c.Call.Args) == 2 {
-						if f, _, ok := loadOfField(c.Call.Args[1]); ok && f == "container" && !underOpt(b, opts, "container") {
-							bad = true
-							og.Fail(r.pos(c.Pos()), "the container name is written with the container option off")
+			{
+				// container name appended under opts.container; timestamp under opts.timestamp
+				for _, b := range lineBlocks {
+					for _, in := range b.Instrs {
+						c, ok := in.(*ssa.Call)
+						if !ok {
+							continue
 						}
-					}
-					if callIs(c, "time", "(Time).AppendFormat") {
-						if !underOpt(b, opts, "timestamp") {
-							bad = true
-							og.Fail(r.pos(c.Pos()), "the timestamp is written with the timestamp option off")
+						if bi, ok := c.Call.Value.(*ssa.Builtin); ok && bi.Name() == "append" && len(c.Call.Args) == 2 {
+							if f, _, ok := loadOfField(c.Call.Args[1]); ok && f == "container" && !underOpt(b, opts, "container") {
+								bad = true
+								og.Fail(r.pos(c.Pos()), "the container name is written with the container option off")
+							}
 						}
-						if layout, ok := constStr(c.Call.Args[2]); !ok || layout != "2006-01-02T15:04:05.999999999Z07:00" {
-							bad = true
-							og.Fail(r.pos(c.Pos()), "the timestamp layout is %s, not RFC3339Nano", describe(c.Call.Args[2], 0))
-						}
-						tc, ok := unspill(c.Call.Args[0]).(*ssa.Call)
-						good := ok && callIs(tc, "time", "Unix")
-						if good {
-							z, okz := constInt(tc.Call.Args[0])
-							f, _, okf := loadOfField(stripConv(tc.Call.Args[1]))
-							good = okz && z == 0 && okf && f == "T"
-						}
-						if !good {
-							bad = true
-							og.Fail(r.pos(c.Pos()), "the formatted time is %s, not time.Unix(0, int64(entry.T))", describe(c.Call.Args[0], 0))
+						if callIs(c, "time", "(Time).AppendFormat") {
+							if !underOpt(b, opts, "timestamp") {
+								bad = true
+								og.Fail(r.pos(c.Pos()), "the timestamp is written with the timestamp option off")
+							}
+							if layout, ok := constStr(c.Call.Args[2]); !ok || layout != "2006-01-02T15:04:05.999999999Z07:00" {
+								bad = true
+								og.Fail(r.pos(c.Pos()), "the timestamp layout is %s, not RFC3339Nano", describe(c.Call.Args[2], 0))
+							}
+							tc, ok := unspill(c.Call.Args[0]).(*ssa.Call)
+							good := ok && callIs(tc, "time", "Unix")
+							if good {
+								z, okz := constInt(tc.Call.Args[0])
+								f, _, okf := loadOfField(stripConv(tc.Call.Args[1]))
+								good = okz && z == 0 && okf && f == "T"
+							}
+							if !good {
+								bad = true
+								og.Fail(r.pos(c.Pos()), "the formatted time is %s, not time.Unix(0, int64(entry.T))", describe(c.Call.Args[0], 0))
+							}
 						}
 					}
 				}
@@ -538,4 +613,18 @@ func namesLiteral(p *Program) []string {
 		}
 	}
 	return out
+}
+
+func isAppend(c *ssa.Call) bool {
+	bi, ok := c.Call.Value.(*ssa.Builtin)
+	return ok && bi.Name() == "append" && len(c.Call.Args) == 2
+}
+
+func argIndex(c *ssa.Call, v ssa.Value) int {
+	for i, a := range c.Call.Args {
+		if a == v {
+			return i
+		}
+	}
+	return -1
 }
